@@ -185,12 +185,14 @@ func alphabet(g geom, blocks []int, below, above int, domain string) []letter {
 
 // runner executes letters on one allocator instance.
 type allocRun struct {
-	g      geom
-	a      allocators.Allocator
-	t      *Trace
-	r      *rand.Rand
-	domain string
-	outst  map[int]bool // blocks returned by a successful Allocate and not successfully freed since
+	g        geom
+	a        allocators.Allocator
+	t        *Trace
+	r        *rand.Rand
+	domain   string
+	outst    map[int]bool // blocks returned by a successful Allocate and not successfully freed since
+	hiRank   map[int]int  // see lab()
+	lastReal int          // the real block number of the last in-pool result
 }
 
 func allocErrClass(err error) string {
@@ -237,7 +239,11 @@ func (x *allocRun) newAlloc() error {
 	}
 	x.a = a
 	x.outst = map[int]bool{}
-	x.t.Emit(Ev{"ev": "reset", "kind": x.g.kind, "N": x.g.n, "page": x.g.page, "geom": x.g.name, "domain": x.domain})
+	nrep := x.g.n
+	if nrep > 1<<30 {
+		nrep = 1 << 30 // see lab()
+	}
+	x.t.Emit(Ev{"ev": "reset", "kind": x.g.kind, "N": nrep, "page": x.g.page, "geom": x.g.name, "domain": x.domain})
 	return nil
 }
 
@@ -305,6 +311,45 @@ func (x *allocRun) hintNet(l letter) (net.IPNet, bool) {
 	return net.IPNet{IP: ip, Mask: m}, true
 }
 
+// Pools of more than 2^30 blocks: block numbers do not fit the checker's 32-bit integers.  Blocks are IDENTITIES to the
+// monitor (which are outstanding, whose hint names which), so they are relabelled injectively: the high part of the number
+// (b >> 20) is replaced by its rank in order of first appearance in the scenario; the pool size is reported as 2^30.
+func (x *allocRun) lab(b int) int {
+	if x.g.n <= 1<<30 || b < 0 {
+		return b
+	}
+	if x.hiRank == nil {
+		x.hiRank = map[int]int{}
+	}
+	hi := b >> 20
+	rk, ok := x.hiRank[hi]
+	if !ok {
+		rk = len(x.hiRank)
+		x.hiRank[hi] = rk
+	}
+	return rk<<20 | b&(1<<20-1)
+}
+
+// the label of the block an argument names (computed from the ADDRESS, so that a replay from recorded text agrees)
+func (x *allocRun) blkLabel(l letter, n net.IPNet) int {
+	if x.g.n <= 1<<30 || l.k != "blk" {
+		return l.b
+	}
+	v := ipToBig(n.IP, x.g.kind)
+	if v == nil {
+		return l.b
+	}
+	rel := new(big.Int).Sub(v, x.g.base)
+	if rel.Sign() < 0 {
+		return l.b
+	}
+	q := new(big.Int).Div(rel, x.g.bsize)
+	if !q.IsInt64() {
+		return l.b
+	}
+	return x.lab(int(q.Int64()))
+}
+
 func (x *allocRun) abstractRes(n net.IPNet, err error) Ev {
 	g := x.g
 	res := Ev{"ok": err == nil, "b": -1, "len": -1, "bits": -1, "aligned": false, "inpool": false, "err": allocErrClass(err)}
@@ -328,11 +373,18 @@ func (x *allocRun) abstractRes(n net.IPNet, err error) Ev {
 		q, m := new(big.Int).DivMod(rel, g.bsize, new(big.Int))
 		if q.Cmp(big.NewInt(int64(g.n))) < 0 {
 			res["inpool"] = true
-			res["b"] = int(q.Int64())
+			x.lastReal = int(q.Int64())
+			res["b"] = x.lab(x.lastReal)
 			res["aligned"] = m.Sign() == 0
 		}
 	}
 	return res
+}
+
+func (x *allocRun) hintAbsL(l letter, n net.IPNet) Ev {
+	h := hintAbs(l, n)
+	h["b"] = x.blkLabel(l, n)
+	return h
 }
 
 func hintAbs(l letter, n net.IPNet) Ev {
@@ -363,9 +415,9 @@ func (x *allocRun) do(l letter) bool {
 		}()
 		res := x.abstractRes(n, err)
 		if res["ok"].(bool) && res["inpool"].(bool) {
-			x.outst[res["b"].(int)] = true
+			x.outst[x.lastReal] = true
 		}
-		x.t.Emit(Ev{"ev": "alloc", "hint": hintAbs(l, hn), "res": res})
+		x.t.Emit(Ev{"ev": "alloc", "hint": x.hintAbsL(l, hn), "res": res})
 		return true
 	}
 	// free
@@ -451,7 +503,7 @@ func (x *allocRun) do(l letter) bool {
 	if err == nil && l.k == "blk" {
 		delete(x.outst, l.b)
 	}
-	x.t.Emit(Ev{"ev": "free", "arg": Ev{"k": l.k, "b": l.b, "sub": l.sub, "side": l.side, "d": l.d, "text": fn.String(),
+	x.t.Emit(Ev{"ev": "free", "arg": Ev{"k": l.k, "b": x.blkLabel(l, fn), "sub": l.sub, "side": l.side, "d": l.d, "text": fn.String(),
 		"ip": hex.EncodeToString(fn.IP), "mask": hex.EncodeToString(fn.Mask)},
 		"ok": err == nil, "err": allocErrClass(err)})
 	return true
@@ -554,6 +606,89 @@ func interesting(n int) []int {
 		}
 	}
 	return out
+}
+
+// BIG pools (thousands to a million blocks, also pools that straddle the /64 boundary), densely used at their low end: a few
+// hundred blocks handed out in a row, then blocks given back and taken again BY HINT, interleaved with hint-less allocations -
+// whatever an allocator keeps per word / per page / per level of a big bitmap has to stay true under that
+func denseGeoms() []geom {
+	return []geom{
+		geomV4("10.0.0.0", "10.0.31.255"),
+		// more than 2^32 blocks (a 1 GiB bitmap that is never touched beyond a few pages): accepted by the constructor with a warning
+		geomV6("2001:db8::/31", 64),
+		geomV4("10.1.0.0", "10.1.255.255"), geomV6("2001:db8:0:e000::/51", 64), geomV6("2001:db8:0:100::/56", 72), geomV6("2001:db8:10::/44", 60),
+		geomV4("10.16.0.0", "10.31.255.255"), geomV6("2001:db8:0:2::/63", 76), geomV6("2001:db8:40::/44", 64), geomV6("2001:db8:0:4000::/50", 84),
+	}
+}
+
+func runAllocDense(t *Trace, seed int64, domain string, walks int) error {
+	r := rand.New(rand.NewSource(seed*48271 + 11))
+	gs := denseGeoms()
+	for w := 0; w < walks; w++ {
+		g := gs[w%len(gs)]
+		x := &allocRun{g: g, t: t, r: r, domain: domain}
+		if err := x.newAlloc(); err != nil {
+			// a big pool the constructor does not take: nothing is allocated from it, nothing to check here (C19 is about set-up)
+			t.Emit(Ev{"ev": "note", "what": "dense: constructor refused " + g.name + ": " + err.Error()})
+			continue
+		}
+		fill := 130 + r.Intn(140)
+		for i := 0; i < fill; i++ {
+			x.do(letter{op: "alloc", k: "none"})
+		}
+		// a second cluster far up the pool, taken by hint
+		far := g.n/2 + r.Intn(g.n/4)
+		for i := 0; i < 70; i++ {
+			x.do(letter{op: "alloc", k: "blk", b: far + i})
+		}
+		pick := func() (int, bool) {
+			if len(x.outst) == 0 {
+				return 0, false
+			}
+			k := r.Intn(len(x.outst))
+			for b := range x.outst {
+				if k == 0 {
+					return b, true
+				}
+				k--
+			}
+			return 0, false
+		}
+		for s := 0; s < 260; s++ {
+			switch r.Intn(6) {
+			case 0, 1: // give a block back and take it again by hint
+				if b, ok := pick(); ok {
+					x.do(letter{op: "free", k: "blk", b: b})
+					x.do(letter{op: "alloc", k: "blk", b: b})
+				}
+			case 2: // give back, take without hint
+				if b, ok := pick(); ok {
+					x.do(letter{op: "free", k: "blk", b: b})
+				}
+				x.do(letter{op: "alloc", k: "none"})
+			case 3:
+				x.do(letter{op: "alloc", k: "none"})
+			case 4:
+				x.do(letter{op: "alloc", k: "blk", b: r.Intn(g.n), long: g.kind == "v6" && g.page < 128 && r.Intn(4) == 0})
+			default:
+				if b, ok := pick(); ok {
+					if domain == "any" && r.Intn(2) == 0 {
+						// a block that is NOT outstanding, at a distance from an outstanding one at which index arithmetic likes to wrap
+						d := []int{1 << 32, 1 << 16, 64, 1 << 24, 1 << 31, 1 << 20}[r.Intn(6)]
+						for _, c := range []int{b + d, b - d} {
+							if _, out := x.outst[c]; !out && c >= 0 && c < g.n {
+								x.do(letter{op: "free", k: "blk", b: c})
+								break
+							}
+						}
+					} else {
+						x.do(letter{op: "free", k: "blk", b: b, sub: g.kind == "v6" && g.page < 128 && r.Intn(3) == 0})
+					}
+				}
+			}
+		}
+	}
+	return nil
 }
 
 // random walks with an exhaustion bias on word-boundary pool sizes
@@ -817,7 +952,7 @@ func findGeom(name string) (geom, bool) {
 			}
 		}
 	}
-	for _, g := range bigGeoms() {
+	for _, g := range append(bigGeoms(), denseGeoms()...) {
 		if g.name == name {
 			return g, true
 		}
@@ -886,7 +1021,7 @@ func (x *allocRun) doText(l letter, e Ev) {
 			}()
 			n, err = x.a.Allocate(hn)
 		}()
-		x.t.Emit(Ev{"ev": "alloc", "hint": hintAbs(l, hn), "res": x.abstractRes(n, err)})
+		x.t.Emit(Ev{"ev": "alloc", "hint": x.hintAbsL(l, hn), "res": x.abstractRes(n, err)})
 		return
 	}
 	a := e["arg"].(map[string]interface{})
@@ -900,7 +1035,7 @@ func (x *allocRun) doText(l letter, e Ev) {
 		}()
 		err = x.a.Free(fn)
 	}()
-	x.t.Emit(Ev{"ev": "free", "arg": Ev{"k": l.k, "b": l.b, "sub": l.sub, "side": l.side, "d": l.d, "text": fn.String(),
+	x.t.Emit(Ev{"ev": "free", "arg": Ev{"k": l.k, "b": x.blkLabel(l, fn), "sub": l.sub, "side": l.side, "d": l.d, "text": fn.String(),
 		"ip": hex.EncodeToString(fn.IP), "mask": hex.EncodeToString(fn.Mask)},
 		"ok": err == nil, "err": allocErrClass(err)})
 }
@@ -955,6 +1090,8 @@ func runAlloc(args []string) error {
 		return runAllocSeq(t, *seed, *domain, *maxN, *suffix)
 	case "walk":
 		return runAllocWalk(t, *seed, *domain, *walks)
+	case "dense":
+		return runAllocDense(t, *seed, *domain, *walks)
 	case "conc":
 		return runAllocConc(t, *seed, *rounds)
 	case "huge":
